@@ -4,11 +4,9 @@
    [repaired] (Model.v) = what /repo HEAD does: all five repairs are committed (88f69f7 mode bits, f4d379f
    current-manifest restore, b6afef3 ForceRetry keeps the interrupted upgrade's snapshot, ca3a3f9 Rollback refuses a
    journal at "started", 31f4cb6 ForceRetry must install every path the kept snapshot covers).  The correspondence check
-   compares /repo with [repaired] and — for one recorded finding — with the same model started from
-   [init_world_reusing] (swapArtifact reuses a stale <dir>/.<base>.new; repair proposed in
-   fixes/C18_swap_discards_stale_staging_file.patch; every theorem below is about worlds started from [init_world],
-   i.e. with that repair).  [pre_31f4cb6], [pre_b6afef3], [pre_88f69f7] are historical and appear only in the
-   `_refuted` witnesses below.
+   compares /repo with [repaired] started from [init_world] only (97a5489, swapArtifact discards a stale staging file,
+   is the sixth committed repair).  [init_world_pre_97a5489], [pre_31f4cb6], [pre_b6afef3], [pre_88f69f7] are historical
+   and appear only in the `_refuted` witnesses below.
    Reachable state = [exec repaired (init_world c f) ops] for an arbitrary
    installed tree f (symlinks, directories, anything), version c and history ops (applies with any tarball,
    options incl. ForceRetry, fault set and crash label; rollbacks; operator edits; obstacle removal).
@@ -195,16 +193,15 @@ Definition interrupted_then_forced : list op :=
   [OpApply (tar_ex 2 PrevNone) no_opts swap_and_rollback_fail;    (* leaves artifact 0 new, artifact 1 old *)
    OpApply (tar_ex 2 PrevNone) force health_fails].               (* ForceRetry, health fails, auto-rollback "succeeds" *)
 
-(* /repo at 7b3d79c (recorded finding swap-reuses-stale-staging-file, repair proposed): a swap that was killed left
-   <dir>/.<base>.new with mode 04755 behind; the next upgrade installs artifact 1, whose manifest entry has no mode,
-   with 04755 instead of 0644 and reports success ([init_world_reusing] = the behaviour without the repair) *)
+(* historical, fixed in 97a5489: a swap that was killed left <dir>/.<base>.new with mode 04755 behind; the next upgrade
+   installed artifact 1, whose manifest entry has no mode, with 04755 instead of 0644 and reported success *)
 Definition stale_setuid_at_1 : faults :=
   {| f_fail := []; f_crash := None; f_ha := true; f_hr := true; f_ob := []; f_rob := []; f_st := [(1, 2541)]; f_rst := [] |}.
-Theorem C18_stale_staging_file_refuted :
-  exists w' m, step repaired (init_world_reusing 1 fs_ex) (OpApply (tar_ex 2 PrevNone) no_opts stale_setuid_at_1) = (w', (ROk, m)) /\
+Theorem C18_pre_97a5489_stale_staging_file_refuted :
+  exists w' m, step repaired (init_world_pre_97a5489 1 fs_ex) (OpApply (tar_ex 2 PrevNone) no_opts stale_setuid_at_1) = (w', (ROk, m)) /\
                m = MonMixed /\ ofile_eqb (fs w' 1) (Some (Reg 21 2541)) = true.
 Proof. do 2 eexists. split; [vm_compute; reflexivity|]. split; [reflexivity|vm_compute; reflexivity]. Qed.
-Print Assumptions C18_stale_staging_file_refuted.
+Print Assumptions C18_pre_97a5489_stale_staging_file_refuted.
 
 (* with the repair the leftover is discarded: 0644 as documented *)
 Example C18_nonvacuous_stale_staging_file :
